@@ -75,16 +75,21 @@ func handshakeImage(p *Prog, r *Report, R string) {
 	if !hs.OK() {
 		return
 	}
+	H := headerLocal(hs.fn)
+	if H == "" {
+		r.Bad(R, "handshake/header-local", hs.Pos(), "ANCHOR-MISSING: no local of type connHeader in handshake")
+		return
+	}
 	consts := map[string]string{}
-	for _, e := range hs.Ev("store", "$h.*") {
-		consts[strings.TrimPrefix(e.What, "$h.")] = e.Args[0]
+	for _, e := range hs.Ev("store", H+".*") {
+		consts[strings.TrimPrefix(e.What, H+".")] = e.Args[0]
 	}
 	r.Check(consts["S"] == "83" && consts["P"] == "80" && consts["Proto"] == "recv.proto.Self" && len(consts) == 3, R, "handshake/literal", hs.Pos(),
 		"header literal: S='S', P='P', Proto=own protocol number, other fields zero", fmt.Sprintf("the header sent is not {0,'S','P',0,Self,0}: stores %v", consts))
 	wr := hs.Ev("call", "binary.Write")
 	rd := hs.Ev("call", "binary.Read")
-	r.Check(len(wr) == 1 && wr[0].Args[0] == "recv.c" && wr[0].Args[1] == "encoding/binary.BigEndian" && wr[0].Args[2] == "$h", R, "handshake/write-big-endian", wr.Pos(p), "header written big-endian", "the header is not written with binary.BigEndian: "+argsOf(wr))
-	r.Check(len(rd) == 1 && rd[0].Args[0] == "recv.c" && rd[0].Args[1] == "encoding/binary.BigEndian" && rd[0].Args[2] == "$h", R, "handshake/read-big-endian", rd.Pos(p), "peer header read big-endian into the same struct", "the peer header is not read with binary.BigEndian into the header struct: "+argsOf(rd))
+	r.Check(len(wr) == 1 && wr[0].Args[0] == "recv.c" && wr[0].Args[1] == "encoding/binary.BigEndian" && wr[0].Args[2] == H, R, "handshake/write-big-endian", wr.Pos(p), "header written big-endian", "the header is not written with binary.BigEndian: "+argsOf(wr))
+	r.Check(len(rd) == 1 && rd[0].Args[0] == "recv.c" && rd[0].Args[1] == "encoding/binary.BigEndian" && rd[0].Args[2] == H, R, "handshake/read-big-endian", rd.Pos(p), "peer header read big-endian into the same struct", "the peer header is not read with binary.BigEndian into the header struct: "+argsOf(rd))
 	r.Check(len(wr) == 1 && len(rd) == 1 && rd.DominatedBy(wr), R, "handshake/send-then-receive", rd.Pos(p), "own header is sent before waiting for the peer's", "handshake waits for the peer before sending its own header (two such peers deadlock)")
 }
 
@@ -106,9 +111,10 @@ func handshakeValidation(p *Prog, r *Report, R string) {
 	if len(succ) != 1 {
 		r.Bad(R, "handshake/success-exit", hs.Pos(), "ANCHOR-MISSING: expected exactly one `return nil`")
 	} else {
-		dom := map[string][]int64{"$h.Zero": {0, 1}, "$h.S": {83, 84}, "$h.P": {80, 81}, "$h.Version": {0, 1}, "$h.Reserved": {0, 1}, "$h.Proto": {1, 2}, "recv.proto.Peer": {1, 2}}
-		res := ComparePred(succ[0].In.Block(), dom, []string{"binary.Write(recv.c,encoding/binary.BigEndian,$h) == nil", "binary.Read(recv.c,encoding/binary.BigEndian,$h) == nil"}, func(env map[string]int64) bool {
-			return env["$h.Zero"] == 0 && env["$h.S"] == 83 && env["$h.P"] == 80 && env["$h.Version"] == 0 && env["$h.Reserved"] == 0 && env["$h.Proto"] == env["recv.proto.Peer"]
+		H := headerLocal(hs.fn)
+		dom := map[string][]int64{H + ".Zero": {0, 1}, H + ".S": {83, 84}, H + ".P": {80, 81}, H + ".Version": {0, 1}, H + ".Reserved": {0, 1}, H + ".Proto": {1, 2}, "recv.proto.Peer": {1, 2}}
+		res := ComparePred(succ[0].In.Block(), dom, []string{"binary.Write(recv.c,encoding/binary.BigEndian," + H + ") == nil", "binary.Read(recv.c,encoding/binary.BigEndian," + H + ") == nil"}, func(env map[string]int64) bool {
+			return env[H+".Zero"] == 0 && env[H+".S"] == 83 && env[H+".P"] == 80 && env[H+".Version"] == 0 && env[H+".Reserved"] == 0 && env[H+".Proto"] == env["recv.proto.Peer"]
 		})
 		switch {
 		case res.Undec != "":
@@ -705,7 +711,7 @@ func dropDoesNotDisconnect(p *Prog, r *Report, R string, inPkg func(rel string) 
 			}
 			sel := false
 			for _, g := range e.Guard {
-				if strings.HasPrefix(g, "select#") {
+				if strings.HasPrefix(g, "arm(") || strings.HasPrefix(g, "!arm(") {
 					sel = true
 				}
 			}
@@ -717,4 +723,22 @@ func dropDoesNotDisconnect(p *Prog, r *Report, R string, inPkg func(rel string) 
 		}
 	}
 	r.Count("wire.receiver_drops", n)
+}
+
+// headerLocal: the description ("$name") of the local variable of type connHeader in fn — the
+// wire header the handshake sends and then reads back into; found by its type, not its name.
+func headerLocal(fn *ssa.Function) string {
+	name := ""
+	EachInstr(fn, func(in ssa.Instruction) {
+		al, ok := in.(*ssa.Alloc)
+		if !ok {
+			return
+		}
+		if pt, ok := al.Type().Underlying().(*types.Pointer); ok {
+			if n, ok := pt.Elem().(*types.Named); ok && n.Obj().Name() == "connHeader" {
+				name = "$" + al.Comment
+			}
+		}
+	})
+	return name
 }
